@@ -5,6 +5,7 @@ import (
 	"context"
 	"encoding/hex"
 	"fmt"
+	"runtime/pprof"
 	"strings"
 	"time"
 
@@ -310,7 +311,7 @@ func ZsonOf(v zed.Value) string { return zson.FormatValue(v) }
 // and returns the values.
 func lakeQueryValues(l *TLake, q string, parallelism int) (out []zed.Value, err error) {
 	e, _ := Protect(func() error {
-		ctx, cancel := context.WithTimeout(context.Background(), 60*time.Second)
+		ctx, cancel := context.WithTimeout(context.Background(), 20*time.Second)
 		defer cancel()
 		var p zbuf.Puller
 		if parallelism > 0 {
@@ -337,6 +338,9 @@ func lakeQueryValues(l *TLake, q string, parallelism int) (out []zed.Value, err 
 		for {
 			b, err := p.Pull(false)
 			if err != nil {
+				if strings.Contains(err.Error(), "deadline exceeded") && cacheLockDeadlocked() {
+					return fmt.Errorf("%w [vcache-fetch-deadlock]", err)
+				}
 				return err
 			}
 			if b == nil {
@@ -349,4 +353,27 @@ func lakeQueryValues(l *TLake, q string, parallelism int) (out []zed.Value, err 
 		}
 	})
 	return out, e
+}
+
+// cacheLockDeadlocked looks at the goroutines of this process for the signature of the
+// vcache.Cache lock-order deadlock: one goroutine inside Cache.lock (it holds c.mu and waits for
+// the object mutex) while another one waits for c.mu inside Cache.Fetch.
+func cacheLockDeadlocked() bool {
+	var buf bytes.Buffer
+	if p := pprof.Lookup("goroutine"); p == nil || p.WriteTo(&buf, 2) != nil {
+		return false
+	}
+	inLock, inFetch := false, false
+	for _, g := range strings.Split(buf.String(), "\n\n") {
+		if !strings.Contains(g, "[sync.Mutex.Lock") {
+			continue
+		}
+		switch {
+		case strings.Contains(g, "vcache.(*Cache).lock("):
+			inLock = true
+		case strings.Contains(g, "vcache.(*Cache).Fetch("):
+			inFetch = true
+		}
+	}
+	return inLock && inFetch
 }
